@@ -310,6 +310,9 @@ class Formatter(FormatterInterface):
         """Format a for loop over a range."""
         begin = self(r.begin)
         end = self(r.end)
+        if r.end.precedence >= L.PRECEDENCE.LT:
+            # The bound is the right operand of "<"
+            end = f"({end})"
         index = self(r.index)
         output = f"for (int {index} = {begin}; {index} < {end}; ++{index})\n"
         output += "{\n"
